@@ -9,6 +9,7 @@ package weshnet
 import (
 	"bytes"
 	"context"
+	"fmt"
 	"io"
 	"sync"
 	"testing"
@@ -74,25 +75,38 @@ func vfRPCListRun(t testing.TB, sc vfScript) []map[string]any {
 			vfInfra("message send: %v", err)
 		}
 	}
-	callMeta := func(r vfListReq) ([][]byte, error) {
+	panicked := false
+	callMeta := func(r vfListReq) (ids [][]byte, err error) {
+		defer func() {
+			if x := recover(); x != nil {
+				panicked = true
+				ids, err = nil, fmt.Errorf("handler panicked: %v", x)
+			}
+		}()
 		c, cancel := context.WithTimeout(ctx, 5*time.Second)
 		defer cancel()
 		fs := &vfLStream[protocoltypes.GroupMetadataEvent]{ctx: c}
-		err := s.GroupMetadataList(&protocoltypes.GroupMetadataList_Request{GroupPk: cr.GroupPk, SinceId: r.since, UntilId: r.until,
+		err = s.GroupMetadataList(&protocoltypes.GroupMetadataList_Request{GroupPk: cr.GroupPk, SinceId: r.since, UntilId: r.until,
 			SinceNow: r.sinceNow, UntilNow: r.untilNow, ReverseOrder: r.rev}, &grpc.GenericServerStream[protocoltypes.GroupMetadataList_Request, protocoltypes.GroupMetadataEvent]{ServerStream: fs})
-		ids := [][]byte{}
+		ids = [][]byte{}
 		for _, m := range fs.msgs {
 			ids = append(ids, m.EventContext.Id)
 		}
 		return ids, err
 	}
-	callMsg := func(r vfListReq) ([][]byte, error) {
+	callMsg := func(r vfListReq) (ids [][]byte, err error) {
+		defer func() {
+			if x := recover(); x != nil {
+				panicked = true
+				ids, err = nil, fmt.Errorf("handler panicked: %v", x)
+			}
+		}()
 		c, cancel := context.WithTimeout(ctx, 5*time.Second)
 		defer cancel()
 		fs := &vfLStream[protocoltypes.GroupMessageEvent]{ctx: c}
-		err := s.GroupMessageList(&protocoltypes.GroupMessageList_Request{GroupPk: cr.GroupPk, SinceId: r.since, UntilId: r.until,
+		err = s.GroupMessageList(&protocoltypes.GroupMessageList_Request{GroupPk: cr.GroupPk, SinceId: r.since, UntilId: r.until,
 			SinceNow: r.sinceNow, UntilNow: r.untilNow, ReverseOrder: r.rev}, &grpc.GenericServerStream[protocoltypes.GroupMessageList_Request, protocoltypes.GroupMessageEvent]{ServerStream: fs})
-		ids := [][]byte{}
+		ids = [][]byte{}
 		for _, m := range fs.msgs {
 			ids = append(ids, m.EventContext.Id)
 		}
@@ -165,13 +179,14 @@ func vfRPCListRun(t testing.TB, sc vfScript) []map[string]any {
 					if until == 0 {
 						r.untilNow = true
 					}
+					panicked = false
 					ids, err := call(r)
 					got := []int{}
 					for _, id := range ids {
 						got = append(got, nameOf(id))
 					}
 					out = append(out, map[string]any{"ev": "rpclist", "kind": kind, "since": since, "until": until, "rev": rev,
-						"ok": err == nil, "out": got, "has": has, "full": fullNames, "storeagree": agree})
+						"ok": err == nil, "out": got, "has": has, "full": fullNames, "storeagree": agree, "panic": panicked})
 				}
 			}
 		}
@@ -196,8 +211,9 @@ func vfRPCListRun(t testing.TB, sc vfScript) []map[string]any {
 							if open && !rev && !(sid && snow) {
 								continue // a legal open-ended subscription: would only end by our deadline
 							}
+							panicked = false
 							_, err := call(r)
-							out = append(out, map[string]any{"ev": "rpcparams", "kind": kind, "sid": sid, "snow": snow, "uid": uid, "unow": unow, "rev": rev, "ok": err == nil})
+							out = append(out, map[string]any{"ev": "rpcparams", "kind": kind, "sid": sid, "snow": snow, "uid": uid, "unow": unow, "rev": rev, "ok": err == nil, "panic": panicked})
 						}
 					}
 				}
